@@ -245,6 +245,12 @@ class World:
             app.orchestrator.record_atomic_service_execution("r1", now, now + _dt.timedelta(seconds=2))
         elif kind == "event":
             app.trigger.emit_event("c20evt", {"n": 1})
+        elif kind == "requeue":
+            # a second message for an invocation that already has one in the queue (what the retry of a blocking
+            # invocation, a reroute racing a recovery or a duplicate delivery leave behind)
+            q = self.queue()
+            if q:
+                app.broker.route_invocation(q[0])
         elif kind == "tick":
             env.CLOCK.advance(25 * 3600.0)  # a day later: heartbeats stale, claims overdue, finals past auto-purge age
         elif kind == "purge":
@@ -381,6 +387,8 @@ def alphabet(history: list, thorough: bool) -> list[tuple]:
         ops.append(("service",))
     if history and "tick" not in kinds:
         ops.append(("tick",))
+    if "submit" in kinds and "requeue" not in kinds:
+        ops.append(("requeue",))
     return ops
 
 
